@@ -261,6 +261,31 @@ Proof. exact of_finite_exact. Qed.
 Example C12_fpnum_of_float_ex : FPNum_of_finite false 3602879701896397 55 = mkfp 1 (-4) 3602879701896397 2251799813685248 false false.   (* FPNum(0.1) *)
 Proof. vm_compute. reflexivity. Qed.
 
+(* ---------------------------------------------------------------- the spec itself: ieee_value = Flocq's reading of the bits *)
+(* Spec.C12.ieee_value (rationals) agrees with Flocq's IEEE754.Bits.b32_of_bits / b64_of_bits on class, sign and real value
+   for every pattern.  These two statements (and only these) live over Coq's real numbers: Print Assumptions lists the
+   standard-library axioms behind Coq's classical reals and Flocq: ClassicalDedekindReals.sig_forall_dec, ClassicalDedekindReals.sig_not_dec,
+   FunctionalExtensionality.functional_extensionality_dep, Classical_Prop.classic.  Every other theorem of this file is closed. *)
+From V Require Proofs.C12.FlocqSpec.
+Theorem C12_spec_is_flocq_b32 : forall v, 0 <= v < 2 ^ 32 ->
+  match ieee_value 8 23 v with
+  | XNaN => Flocq.IEEE754.Binary.is_nan 24 128 (Flocq.IEEE754.Bits.b32_of_bits v) = true
+  | XInf s => Flocq.IEEE754.Bits.b32_of_bits v = Flocq.IEEE754.Binary.B754_infinity 24 128 s
+  | XFin q => Flocq.IEEE754.Binary.is_finite 24 128 (Flocq.IEEE754.Bits.b32_of_bits v) = true /\
+              Flocq.IEEE754.Binary.B2R 24 128 (Flocq.IEEE754.Bits.b32_of_bits v) = Coq.Reals.Rdefinitions.Q2R q /\
+              Flocq.IEEE754.Binary.Bsign 24 128 (Flocq.IEEE754.Bits.b32_of_bits v) = ieee_neg 8 23 v
+  end.
+Proof. exact FlocqSpec.ieee_value_is_flocq_b32. Qed.
+Theorem C12_spec_is_flocq_b64 : forall v, 0 <= v < 2 ^ 64 ->
+  match ieee_value 11 52 v with
+  | XNaN => Flocq.IEEE754.Binary.is_nan 53 1024 (Flocq.IEEE754.Bits.b64_of_bits v) = true
+  | XInf s => Flocq.IEEE754.Bits.b64_of_bits v = Flocq.IEEE754.Binary.B754_infinity 53 1024 s
+  | XFin q => Flocq.IEEE754.Binary.is_finite 53 1024 (Flocq.IEEE754.Bits.b64_of_bits v) = true /\
+              Flocq.IEEE754.Binary.B2R 53 1024 (Flocq.IEEE754.Bits.b64_of_bits v) = Coq.Reals.Rdefinitions.Q2R q /\
+              Flocq.IEEE754.Binary.Bsign 53 1024 (Flocq.IEEE754.Bits.b64_of_bits v) = ieee_neg 11 52 v
+  end.
+Proof. exact FlocqSpec.ieee_value_is_flocq_b64. Qed.
+
 Print Assumptions C12_c2_round_trip.
 Print Assumptions C12_c2_converse.
 Print Assumptions C12_signed_to_c2_spec.
@@ -308,3 +333,5 @@ Print Assumptions C12_fph_encode_decode_dp_partial.
 Print Assumptions C12_fph_encode_decode_sp_partial.
 Print Assumptions C12_fph_sp_neg_zero_refuted.
 Print Assumptions C12_fph_encode_decode_sp_if_fixed_partial.
+Print Assumptions C12_spec_is_flocq_b32.
+Print Assumptions C12_spec_is_flocq_b64.
